@@ -1062,6 +1062,21 @@ func c07Header(c *Ctx, pk, pa *packages.Package) {
 			})
 		}
 	}
+	if !writes && bs != nil && dflt == nil {
+		// no default arm: the arms of the header kinds jump to the next element and what follows the switch in the loop
+		// body writes every other kind
+		ast.Inspect(body.Decl.Body, func(n ast.Node) bool {
+			if n == ast.Node(bs) {
+				return false
+			}
+			if call, ok := n.(*ast.CallExpr); ok && call.Pos() > bs.End() {
+				if fn := Callee(info, call); fn != nil && fn.Name() == "writeNode" {
+					writes = true
+				}
+			}
+			return true
+		})
+	}
 	c.Ob("HEADER-PARTITION", "default-writes", body.Decl.Pos(), writes, true, "every other file element kind reaches writeNode in writeFileTypes: %v", writes)
 
 	// everything collected is written: the collecting variable is passed to a formatter method, directly or as the
